@@ -2,7 +2,9 @@ package exec
 
 import (
 	"fmt"
+	"os"
 	"sort"
+	"strconv"
 	"testing"
 
 	"pgregory.net/rapid"
@@ -63,6 +65,16 @@ func diff(exp, act interface{}, path string) string {
 
 func showBorder(x interface{}) interface{} { return x }
 
+// depthSlack: what ggql's depth limit needs on top of the object and list levels of the deepest leaf
+// (the schema level and the operation root; calibrated on the pinned tree, see DESIGN.md).
+var depthSlack = func() int {
+	if v := os.Getenv("C01_DEPTH_SLACK"); v != "" {
+		n, _ := strconv.Atoi(v)
+		return n
+	}
+	return 1
+}()
+
 // genCaseC01 draws a C01 case.
 func genCaseC01(t *rapid.T) *Case {
 	strategy := rapid.SampledFrom([]string{"R", "A", "X", "X"}).Draw(t, "strategy")
@@ -80,6 +92,9 @@ func genCaseC01(t *rapid.T) *Case {
 	c.Assign, c.AnyInstalled = GenAssign(t, g, strategy)
 	c.Warm = GenWarm(t, s, p)
 	c.ViaAPI = rapid.IntRange(0, 4).Draw(t, "schemaViaGoAPI") == 0
+	if len(c.Warm) == 0 && rapid.IntRange(0, 3).Draw(t, "tightDepth") == 0 {
+		c.TightDepth = rapid.IntRange(1, 2).Draw(t, "tightDepthPlus")
+	}
 	// operation name
 	var names []string
 	for _, o := range d.Ops {
@@ -107,13 +122,17 @@ func checkC01(c *Case) (ds []hx.Discrepancy, exp *hx.Expect, res map[string]inte
 		ds = append(ds, hx.Discrepancy{Kind: kind, Sig: sig, Detail: fmt.Sprintf(format, args...)})
 	}
 	var err error
+	x := &hx.Exec{S: c.Schema, G: c.Graph, D: c.Doc, Faults: c.Faults, Echo: c.Echo}
+	exp = x.Run(c.Op, c.VarMap())
+	if c.TightDepth > 0 && !exp.Rejected {
+		slack := depthSlack
+		c.DepthAfter = exp.T.MaxLevels + slack + c.TightDepth - 1
+	}
 	w, err = NewWorld(c)
 	if err != nil {
 		add("setup", "", "%v", err)
 		return
 	}
-	x := &hx.Exec{S: c.Schema, G: c.Graph, D: c.Doc, Faults: c.Faults, Echo: c.Echo}
-	exp = x.Run(c.Op, c.VarMap())
 	var text string
 	var pan interface{}
 	res, text, pan = w.Resolve()
